@@ -513,3 +513,93 @@ func refWrapCheck(d string, l int, p string, o string) int {
 	}
 	return 0
 }
+
+// ---- C19: struct tag reference ----
+
+// refQuote renders v as a Go double-quoted literal (legal in a struct tag).
+func refQuote(v string) string {
+	const hex = "0123456789abcdef"
+	out := []byte{'"'}
+	for i := 0; i < len(v); i++ {
+		c := v[i]
+		switch {
+		case c == '"' || c == '\\':
+			out = append(out, '\\', c)
+		case c >= 0x20 && c <= 0x7e:
+			out = append(out, c)
+		default:
+			out = append(out, '\\', 'x', hex[c>>4], hex[c&15])
+		}
+	}
+	return string(append(out, '"'))
+}
+
+type refTag struct {
+	keys []string
+	vals []string
+}
+
+func (t refTag) get(key string) string {
+	r := ""
+	for i, k := range t.keys {
+		if k == key {
+			r = t.vals[i]
+		}
+	}
+	return r
+}
+
+func (t refTag) getMany(key string) []string {
+	var r []string
+	for i, k := range t.keys {
+		if k == key {
+			r = append(r, t.vals[i])
+		}
+	}
+	return r
+}
+
+// refScanTag: the strict Go struct-tag convention - key:"quoted" pairs
+// separated by blanks; keys are non-empty runs of bytes other than blank,
+// ':', '"' and control characters.
+func refScanTag(tag string, unquote func(string) (string, error)) (refTag, bool) {
+	var ret refTag
+	for tag != "" {
+		i := 0
+		for i < len(tag) && tag[i] == ' ' {
+			i++
+		}
+		tag = tag[i:]
+		if tag == "" {
+			break
+		}
+		i = 0
+		for i < len(tag) && tag[i] > ' ' && tag[i] != ':' && tag[i] != '"' && tag[i] != 0x7f {
+			i++
+		}
+		if i == 0 || i+1 >= len(tag) || tag[i] != ':' || tag[i+1] != '"' {
+			return ret, false
+		}
+		name := tag[:i]
+		tag = tag[i+1:]
+		i = 1
+		for i < len(tag) && tag[i] != '"' {
+			if tag[i] == '\\' {
+				i++
+			}
+			i++
+		}
+		if i >= len(tag) {
+			return ret, false
+		}
+		q := tag[:i+1]
+		tag = tag[i+1:]
+		val, err := unquote(q)
+		if err != nil {
+			return ret, false
+		}
+		ret.keys = append(ret.keys, name)
+		ret.vals = append(ret.vals, val)
+	}
+	return ret, true
+}
